@@ -673,6 +673,9 @@ func init() {
 				spec.Size = Pick(r, 0, 1, 5, 20, 50)
 				spec.Trim = spec.Size*3 + r.Range(150, 450)
 				return sc
+			case 2, 3:
+				genC18WS(r, sc)
+				return sc
 			}
 			sc.Arm = "concurrent"
 			spec.Size = Pick(r, 40, 100, 1000)
